@@ -228,6 +228,7 @@ def c05(run):
     r_stream.run_unit_complete(run, P)
     r_stream.run_phase_local(run, P)
     r_stream.run_empty_unit(run, P)
+    r_stream.run_buffer_param(run, P)
     r_stream.run_cap(run, P)
     r_stream.run_cap_own(run, P)
     run.min_instances('R-STREAM-ADV', 4)
@@ -238,7 +239,7 @@ def c05(run):
         "Stream readers (TCP three-state reader, WebSocket frame and handshake readers): every transfer of n bytes to buffer+counter is followed by "
         "an advance of that counter by the same n or a reset, on every path (R-STREAM-ADV); a length declared by the peer reaches an allocation/copy/"
         "read size only after the non-exceeding arm of a comparison with a maximum, the exceeding arm reaches a closing call, and a full handshake "
-        "line buffer is rejected (R-STREAM-CAP). Necessary for 'same messages however the stream is cut' and 'over-long closes the session'. The receive limit, once our own maximum is set, is computed without any session field the peer can set (R-STREAM-CAP own limit; peer-settable fields computed from the assignments of decoded option values). A position is never SET to the size of the piece just stored unless it is known 0, and the local that is compared as needed length with a progress counter is not increased after that comparison let the function carry on (R-STREAM-ADV). The header is handed to the size function with a length only under a condition that mentions every variable of that length (unit complete). A local that a reader assigns in its header phase and stores into the session record is not read on a path that skipped that phase (phase-local value). A message created with nothing left to read is dispatched before the reader returns (empty unit).")
+        "line buffer is rejected (R-STREAM-CAP). Necessary for 'same messages however the stream is cut' and 'over-long closes the session'. The receive limit, once our own maximum is set, is computed without any session field the peer can set (R-STREAM-CAP own limit; peer-settable fields computed from the assignments of decoded option values). A position is never SET to the size of the piece just stored unless it is known 0, and the local that is compared as needed length with a progress counter is not increased after that comparison let the function carry on (R-STREAM-ADV). The header is handed to the size function with a length only under a condition that mentions every variable of that length (unit complete). A local that a reader assigns in its header phase and stores into the session record is not read on a path that skipped that phase (phase-local value). A message created with nothing left to read is dispatched before the reader returns (empty unit). The size a layer read asks the lower layer for is bounded by the capacity of the buffer it was handed, on every path of that call (R-STREAM-CAP, the caller's buffer).")
 
 
 def c16(run):
@@ -512,6 +513,7 @@ def c02(run):
     r_stream.run_unit_complete(run, P)
     r_stream.run_phase_local(run, P)
     r_stream.run_empty_unit(run, P)
+    r_stream.run_buffer_param(run, P)
     r_parsegate.run(run, P)
     r_fixup.run_stale(run, P)
     from rules import r_cmpbound
